@@ -912,6 +912,8 @@ vec<PTRef> LASolver::collectEqualitiesFor(vec<PTRef> const & vars, std::unordere
         auto const & equivalentVars = entry.second;
         for (int i = 0; i < equivalentVars.size(); ++i) {
             for (int j = i + 1; j < equivalentVars.size(); ++j) {
+                // In a logic with both integers and reals, variables of different sorts can share a value
+                if (logic.getSortRef(equivalentVars[i]) != logic.getSortRef(equivalentVars[j])) { continue; }
                 PTRef eq = logic.mkEq(equivalentVars[i], equivalentVars[j]);
                 if (knownEqualities.find(eq) == knownEqualities.end()) {
                     equalities.push(eq);
